@@ -1,6 +1,6 @@
 import Driver.Util
 import Driver.C09
-import TemporalModel.Model.DateArith
+import TemporalModel.Model.Relative
 namespace Driver
 open TemporalModel
 
@@ -31,9 +31,7 @@ def handleC04 (toks : List String) : Option String :=
         let o ← rawOptions l s inc m
         match a, b, o with
         | .ok a, .ok b, .ok o =>
-          match plainDateDiff (op == "pd_since") a b o with
-          | some r => some (r.render Dur.render)
-          | none => some "?rounding-path"
+          some ((plainDateDiffFull (op == "pd_since") a b o).render Dur.render)
         | .ok _, .ok _, .err k => some ("err " ++ k.name)
         | .ok _, .err k, _ => some ("err " ++ k.name)
         | .err k, _, _ => some ("err " ++ k.name)
